@@ -1122,3 +1122,158 @@ func (a *txnAnalyzer) checkLedger(r *Result, s *txnSite) int {
 	})
 	return n
 }
+
+// checkAppliedGuard (rule T1g): when a rollback distinguishes "the cond failed before its effect" from "the cond failed after
+// its effect" by more than the failureByCond flag, the extra test must be a RECORD that the effect was applied — a boolean
+// set to true right after the effect call returned without error — and not a property of the data the effect call handed
+// back (a failed call can hand back data too: compensating then un-does something that was never done).
+func (a *txnAnalyzer) checkAppliedGuard(r *Result, s *txnSite) {
+	rb, cond := s.closures[2], s.closures[0]
+	if s.kind != "Txn" || rb == nil || cond == nil {
+		return
+	}
+	flag := flagParam(rb)
+	if flag == nil {
+		return
+	}
+	p := a.p
+	rb.inspectBody(func(n ast.Node) bool {
+		is, ok := n.(*ast.IfStmt)
+		if !ok || !rb.usesObj(is.Cond, flag) {
+			return true
+		}
+		conj := splitOp(is.Cond, token.LAND)
+		if len(conj) < 2 {
+			return true
+		}
+		key := s.key + " / T1g / the rollback tells an applied effect from a failed one by a record of the effect"
+		why := ""
+		for _, c := range conj {
+			if rb.usesObj(c, flag) {
+				continue
+			}
+			u, ok := unparen(c).(*ast.UnaryExpr)
+			var id *ast.Ident
+			if ok && u.Op == token.NOT {
+				id, _ = unparen(u.X).(*ast.Ident)
+			} else {
+				id, _ = unparen(c).(*ast.Ident)
+			}
+			if id == nil {
+				why = "the guard `" + exprStr(is.Cond) + "` decides by `" + exprStr(c) + "`, which is not a flag recording that the effect was applied: when the effect call itself fails (after computing its result) the rollback un-does a change that was never made"
+				continue
+			}
+			o := rb.objOf(id)
+			// assigned true exactly once, in cond, after an `if err != nil { return … }`
+			nTrue, afterCheck := 0, false
+			cond.inspectBody(func(x ast.Node) bool {
+				as, ok := x.(*ast.AssignStmt)
+				if !ok || len(as.Lhs) != 1 || cond.objOf(as.Lhs[0]) != o {
+					return true
+				}
+				if constBoolName(cond, as.Rhs[0]) == "true" {
+					nTrue++
+					// the previous statement in the same block is the error check of a call
+					for _, blk := range []*ast.BlockStmt{cond.Body} {
+						for i, st := range blk.List {
+							if st == ast.Stmt(as) && i > 0 {
+								if prev, ok := blk.List[i-1].(*ast.IfStmt); ok && strings.Contains(exprStr(prev.Cond), "!= nil") && returnsError(prev.Body) {
+									afterCheck = true
+								}
+							}
+						}
+					}
+				} else {
+					nTrue += 10
+				}
+				return true
+			})
+			if nTrue != 1 || !afterCheck {
+				why = "the flag `" + id.Name + "` in the guard `" + exprStr(is.Cond) + "` is not set to true exactly once, right after the error check of the effect call"
+			}
+		}
+		r.check2(why, "T1g", key, p.pos(is), "failureByCond && !applied, with applied = true right after `if err != nil { return err }` of the effect")
+		return true
+	})
+}
+
+// checkFanoutErrors (rule T5e): inside the callbacks the manager hands to its fan-out helper, a plugin's error is handed back
+// as it is: the callback never answers "success" (nil error) on a path where the plugin call failed. Turning a refusal
+// (e.g. "node exists") into a success makes the whole operation succeed with effects that were not made by it, and the
+// caller's compensation then removes what belonged to someone else.
+func checkFanoutErrors(p *Prog, r *Result, rule string) {
+	n := 0
+	for _, fn := range p.sortedFuncs("resource/cobalt") {
+		if fn.Lit == nil || fn.Body == nil {
+			continue
+		}
+		// a callback of cobalt.call: func(plugin plugins.Plugin) (T, error)
+		if fn.Type.Params == nil || len(fn.Type.Params.List) != 1 || fn.Type.Results == nil || len(fn.Type.Results.List) != 2 {
+			continue
+		}
+		if t := fn.typeOf(fn.Type.Params.List[0].Type); t == nil || !strings.HasSuffix(t.String(), "plugins.Plugin") {
+			continue
+		}
+		plug := fn.paramObj(0)
+		// the error variable assigned from a method call on the plugin
+		var errObj types.Object
+		var call *ast.CallExpr
+		pluginAssigns := map[*ast.AssignStmt]bool{}
+		fn.inspectBody(func(x ast.Node) bool {
+			as, ok := x.(*ast.AssignStmt)
+			if !ok || len(as.Rhs) != 1 || len(as.Lhs) != 2 {
+				return true
+			}
+			c, ok := unparen(as.Rhs[0]).(*ast.CallExpr)
+			if !ok {
+				return true
+			}
+			if sel, ok := unparen(c.Fun).(*ast.SelectorExpr); ok && fn.objOf(sel.X) == plug {
+				if errObj == nil {
+					errObj, call = fn.objOf(as.Lhs[1]), c
+				}
+				pluginAssigns[as] = true
+			}
+			return true
+		})
+		if errObj == nil {
+			continue
+		}
+		n++
+		key := fn.Name + " / the plugin's error is handed back unchanged"
+		why := ""
+		fn.inspectBody(func(x ast.Node) bool {
+			switch y := x.(type) {
+			case *ast.ReturnStmt:
+				if len(y.Results) == 2 && y.Pos() > call.Pos() {
+					if id, ok := unparen(y.Results[1]).(*ast.Ident); !ok || fn.objOf(id) != errObj {
+						// a literal nil is fine only if it cannot be reached with a failed plugin call: accept when the return is
+						// dominated by `if err != nil { return …, err }`
+						if isNilIdent(y.Results[1]) {
+							g, _ := guardedBy(fn, y, func(f *FuncNode, is *ast.IfStmt) bool {
+								be, ok := unparen(is.Cond).(*ast.BinaryExpr)
+								return ok && be.Op == token.NEQ && f.objOf(be.X) == errObj && isNilIdent(be.Y)
+							})
+							if g != nil {
+								return true
+							}
+						}
+						why = "the callback returns `" + exprStr(y.Results[1]) + "` at " + p.pos(y) + " instead of the error of `" + exprStr(call.Fun) + "`: a plugin's refusal is turned into a success (or into a different failure), the operation goes on as if it had made the change, and its compensation later removes records it never created"
+					}
+				}
+			case *ast.AssignStmt:
+				for _, l := range y.Lhs {
+					if fn.objOf(l) == errObj && y.Pos() > call.End() && !pluginAssigns[y] {
+						why = "the plugin's error is overwritten at " + p.pos(y)
+					}
+				}
+			}
+			return true
+		})
+		r.check2(why, rule, key, p.pos(fn.Lit), "return resp, err with err from the plugin call")
+	}
+	r.min(rule, 8)
+	if n == 0 {
+		r.undecided(rule, "resource/cobalt fan-out callbacks", "", "none found")
+	}
+}
